@@ -397,6 +397,20 @@ func (b *Bitmap) Max() uint64 {
 	}
 
 	hb, c := b.Containers.Last()
+	if c.N() == 0 {
+		// The last container holds nothing (its bits were removed): find
+		// the last one that does.
+		hb, c = 0, nil
+		itr, _ := b.Containers.Iterator(0)
+		for itr.Next() {
+			if k, cc := itr.Value(); cc.N() > 0 {
+				hb, c = k, cc
+			}
+		}
+		if c == nil {
+			return 0
+		}
+	}
 	lb := c.max()
 	return hb<<16 | uint64(lb)
 }
